@@ -45,7 +45,7 @@ func init() {
 	}
 	defCheck(&checkDef{Prop: "C01", Level: "exploration",
 		Scens:     []scenBudget{{"nitro", 12000, 400000}, {"nitro_gc", 6000, 200000}, {"nitro_iter", 6000, 200000}},
-		Rule:      nitroRule("2-8 phases of 1-4 writers, snapshot at every phase barrier, readers scanning any open snapshot with hand-held iterators (refresh rate, explicit Refresh), Seek-then-scan, Visitor, Count while writers, closers (any close order) and GC/free workers run; oracle: every completed scan == frozen model content"),
+		Rule:      nitroRule("2-8 phases of 1-4 writers, snapshot at every phase barrier, readers scanning any open snapshot with hand-held iterators (refresh rate, explicit Refresh), Seek-then-scan, Visitor, Count while writers, closers (any close order) and GC/free workers run, application NodeList chaining in 30% of the runs, owners re-scan each snapshot right before closing it; oracle: every completed scan == frozen model content"),
 		Real:      nReal, Stubbed: nStub, Assume: nAssume,
 		WarnProbe: []string{"snapshots"},
 	})
@@ -64,13 +64,13 @@ func init() {
 	c04.Real = append(c04.Real, nReal...)
 	defCheck(&checkDef{Prop: "C06", Level: "exploration",
 		Scens:  []scenBudget{{"nitro_gc", 14000, 500000}, {"nitro", 8000, 250000}, {"nitro_backlog", 160, 4000}},
-		Rule:   nitroRule("delete-heavy histories (several writers deleting the same key in nitro_gc overlap mode), 3-8 snapshots, closers racing on different snapshots in every order; oracle at scheduler-detected quiescence: versions linked at level 0 == model's expected physical set under the in-order pinning rule, GetLastGCSn, snapshot lists, MemoryInUse; a forced GC() is allowed only when Close/GC calls overlapped"),
+		Rule:   nitroRule("delete-heavy histories (several writers deleting the same key in nitro_gc overlap mode), 3-8 snapshots, closers racing on different snapshots in every order; oracle at scheduler-detected quiescence: versions linked at level 0 == model's expected physical set under the in-order pinning rule, GetLastGCSn, snapshot lists, MemoryInUse, ItemsCount == live linked items; a forced GC() is allowed only when Close/GC calls overlapped"),
 		Real:   nReal, Stubbed: nStub, Assume: nAssume,
 		WarnProbe: []string{"gc_trigger_lost_then_forced"},
 	})
 	defCheck(&checkDef{Prop: "C07", Level: "exploration",
 		Scens:  []scenBudget{{"nitro", 10000, 300000}, {"nitro_gc", 6000, 200000}, {"nitro_race", 6000, 200000}},
-		Rule:   nitroRule("any nitro history in user-managed-memory mode run to the end: all iterators and snapshots closed, Nitro.Close as a task; oracle: guard allocator live set empty, no double/unknown free, barrier queue empty") + "; runs drawn with Go-managed memory exercise the same schedule space without the allocator oracle",
+		Rule:   nitroRule("any nitro history in user-managed-memory mode run to the end: all iterators and snapshots closed, optionally a burst of concurrent same-epoch put/delete pairs by every writer, then Nitro.Close as a task; oracle: guard allocator live set empty, no double/unknown free, barrier queue empty") + "; runs drawn with Go-managed memory exercise the same schedule space without the allocator oracle",
 		Real:   nReal, Stubbed: nStub, Assume: nAssume,
 	})
 	defCheck(&checkDef{Prop: "C09", Level: "exploration",
